@@ -3,7 +3,8 @@
    any number of requests, any names (duplicates included), any bytes on the client's stdout in
    any chunking, stdout/stdin closed or the process gone at any point, and any interleaving of
    the senders, the reader goroutine, the exit notice, closeSend, stop and waitForResponses
-   (one action = one lock region / atomic operation / pipe operation of client_runner.go). *)
+   (one action = one lock region / atomic operation / pipe operation of client_runner.go), and any
+   behaviour of the write path (request that cannot be marshalled, closed pipe, any other pipe error). *)
 From V Require Import C10_Spec C10_Proofs.
 Open Scope N_scope.
 
@@ -93,17 +94,18 @@ Print Assumptions wait_returns.
 (* no deadlock: from EVERY reachable state the system completes as soon as the client process
    ends (the environment's only obligation): the in-flight writer returns, the reader exits,
    nothing is pending and sendMu is free ... *)
-Theorem no_deadlock : forall h,
-  let s' := run_from (run h) (wind_down (run h)) in
+Theorem no_deadlock : forall h failed,
+  let s' := run_from (run h) (wind_down failed (run h)) in
   reader_exited s' /\ s'.(mu) = None /\ s'.(pending) = [] /\ (forall i, s'.(phase_of) i <> Writing).
 Proof. exact no_deadlock_proof. Qed.
 Print Assumptions no_deadlock.
 
-(* ... a sender inside its write always has an enabled way out (the client reads, or its stdin is gone) ... *)
+(* ... a sender inside its write always has an enabled way out (the client reads, or its stdin is gone,
+   or the request cannot be written at all) ... *)
 Theorem writer_never_stuck : forall h i,
-  (run h).(phase_of) i = Writing ->
+  in_its_write (run h) i ->
   (step (run h) (WriteOk i)).(phase_of) i = Ret None \/
-  exists r, (step (run h) (WriteFail i)).(phase_of) i = Ret r.
+  exists w r, (step (run h) (WriteFail i w)).(phase_of) i = Ret r.
 Proof. exact writer_never_stuck_proof. Qed.
 Print Assumptions writer_never_stuck.
 
@@ -114,12 +116,45 @@ Theorem parked_sender_returns : forall h i,
 Proof. exact parked_sender_returns_proof. Qed.
 Print Assumptions parked_sender_returns.
 
+(* ... and the end of the client process - whether its function returned nil or an error, at any
+   point, also while a sender is inside its write - closes the client's stdin and stdout, so that
+   writer returns (process.go: runInProcess's clean-up) *)
+Theorem exit_unblocks_writer : forall h failed peek i,
+  in_its_write (run h) i ->
+  let s := step (run h) (ProcExit failed peek) in
+  s.(in_open) = false /\ s.(out_open) = false /\
+  exists r, (step s (WriteFail i (wfail_for (s.(req_of) i)))).(phase_of) i = Ret r.
+Proof. exact exit_unblocks_writer_proof. Qed.
+Print Assumptions exit_unblocks_writer.
+
+(* a request for which sendRequest returned an error - at the err check, as a duplicate, because the
+   send side is closed, or because its write failed in whatever way (marshalling, closed pipe, any
+   other pipe error) - stays refused and its callback is never invoked, whatever happens later
+   (not only once the reader has exited) *)
+Theorem refused_is_clean : forall h h' i,
+  refused (run h) i ->
+  let s := run (h ++ h') in refused s i /\ times_fired i s = 0%nat.
+Proof. exact refused_is_clean_proof. Qed.
+Print Assumptions refused_is_clean.
+
+(* ... and when the write of a registered request fails with an error, the request's name is free
+   again: a request with the same test name that is waiting for sendMu is registered and written
+   next (or finds the send side closed) - it is not refused as a duplicate *)
+Theorem name_free_after_failed_write : forall h i w j,
+  in_its_write (run h) i ->
+  let s := step (run h) (WriteFail i w) in
+  refused s i -> at_the_door s j -> s.(rname) j = s.(rname) i ->
+  let s' := step s (SendLock j) in
+  in_its_write s' j \/ s'.(phase_of) j = Ret (Some EClosed).
+Proof. exact name_free_after_failed_write_proof. Qed.
+Print Assumptions name_free_after_failed_write.
+
 (* ---- non-vacuity ---- *)
 Definition a := bs "a".
 Definition b := bs "b".
 Definition fa := frame (encode a (bs "ra")).
 Definition fb := frame (encode b (bs "rb")).
-Definition sent (i : N) (n : name) := [SendCheck i n; SendLock i; WriteOk i].
+Definition sent (i : N) (n : name) := [SendCheck i n QOk; SendLock i; WriteOk i].
 
 (* answers in the other order; then a clean exit *)
 Example ex_shuffled :
@@ -136,7 +171,7 @@ Proof. vm_compute. reflexivity. Qed.
 (* output cut inside b's answer: a got its response, b an error; the runner is not running; a later send is refused *)
 Example ex_truncated :
   let s := run (sent 0 a ++ sent 1 b ++ [COut (fa ++ firstn 7 fb); CCloseOut; RStep; RStep; RClose; RDrain;
-                                         SendCheck 2 (bs "c"); SendLock 2]) in
+                                         SendCheck 2 (bs "c") QOk; SendLock 2]) in
   (s.(fired), s.(phase_of) 2, is_running s, s.(rd))
   = ([(0, OResp a (bs "ra")); (1, OFail b (Some RUnexp))], Ret (Some (EReason RUnexp)), false, RDone).
 Proof. vm_compute. reflexivity. Qed.
@@ -144,19 +179,19 @@ Proof. vm_compute. reflexivity. Qed.
 (* the client answers while the request is still being written, then dies: the write fails,
    sendRequest still returns nil ("concurrently removed"), the callback fired once *)
 Example ex_answer_before_write_returns :
-  let s := run [SendCheck 0 a; SendLock 0; COut fa; RStep; ProcExit false false; WriteFail 0] in
+  let s := run [SendCheck 0 a QOk; SendLock 0; COut fa; RStep; ProcExit false false; WriteFail 0 WClosed] in
   (s.(phase_of) 0, s.(fired), s.(mu)) = (Ret None, [(0, OResp a (bs "ra"))], None).
 Proof. vm_compute. reflexivity. Qed.
 
 (* the write fails with the request unanswered: refused, never fired *)
 Example ex_write_fails :
-  let s := run [SendCheck 0 a; SendLock 0; ProcExit false false; WriteFail 0; RStep; RClose; RDrain] in
+  let s := run [SendCheck 0 a QOk; SendLock 0; ProcExit false false; WriteFail 0 WClosed; RStep; RClose; RDrain] in
   (s.(phase_of) 0, s.(fired), s.(err)) = (Ret (Some EClosed), [], Some EClosed).
 Proof. vm_compute. reflexivity. Qed.
 
 (* duplicate name while pending; unknown name; already answered *)
 Example ex_duplicate_request :
-  (run (sent 0 a ++ [SendCheck 1 a; SendLock 1])).(phase_of) 1 = Ret (Some EDup).
+  (run (sent 0 a ++ [SendCheck 1 a QOk; SendLock 1])).(phase_of) 1 = Ret (Some EDup).
 Proof. vm_compute. reflexivity. Qed.
 Example ex_already_answered :
   (run (sent 0 a ++ [COut (fa ++ fa); RStep; RStep])).(rd) = RStop1 RDupResp.
@@ -176,6 +211,41 @@ Proof.
   exists fb, (firstn 4 fa), (encode a (bs "ra")), []. vm_compute. repeat split; reflexivity.
 Qed.
 Example ex_parked :
-  let s := run [SendCheck 0 a; CCloseOut; RStep; RClose; RDrain] in
+  let s := run [SendCheck 0 a QOk; CCloseOut; RStep; RClose; RDrain] in
   reader_exited s /\ s.(mu) = None /\ s.(phase_of) 0 = Checked.
 Proof. vm_compute. repeat split; reflexivity. Qed.
+
+(* a request in second position that cannot be marshalled: refused with the write path's own error,
+   never called back (the drain at the end fails request 0 only), and the error is sticky *)
+Example ex_marshal_failure :
+  let s := run (sent 0 a ++ [SendCheck 1 b QBad; SendLock 1; WriteFail 1 WMarshal; SendCheck 2 b QOk;
+                             ProcExit false false; RStep; RClose; RDrain]) in
+  (s.(phase_of) 1, s.(phase_of) 2, s.(fired), s.(pending))
+  = (Ret (Some EWrite), Ret (Some EWrite), [(0, OFail a None)], []).
+Proof. vm_compute. reflexivity. Qed.
+
+(* the client's stdin fails in the middle of request 0 with an error that is not a closed pipe,
+   while request 1 (same name) waits for sendMu: 0 is refused and never called back, 1 is registered *)
+Example ex_name_free :
+  let s := run [SendCheck 0 a (QFailAt 5); SendLock 0; SendCheck 1 a QOk; WriteFail 0 WOther; SendLock 1] in
+  (s.(phase_of) 0, s.(phase_of) 1, s.(pending), s.(fired)) = (Ret (Some EWrite), Writing, [(a, 1)], []).
+Proof. vm_compute. reflexivity. Qed.
+Example ex_name_free_hyps :
+  let h := [SendCheck 0 a (QFailAt 5); SendLock 0; SendCheck 1 a QOk] in
+  in_its_write (run h) 0 /\ refused (step (run h) (WriteFail 0 WOther)) 0 /\ at_the_door (step (run h) (WriteFail 0 WOther)) 1.
+Proof. split; [|split]; [vm_compute; reflexivity|exists EWrite; vm_compute; reflexivity|vm_compute; reflexivity]. Qed.
+
+(* the client function returns nil while request 1 is being written: stdin is closed, the writer
+   gets its error, the reader exits, request 0 is failed, waitForResponses returns *)
+Example ex_early_clean_exit :
+  let h := sent 0 a ++ [SendCheck 1 b QOk; SendLock 1] in
+  let s := run_from (run h) (wind_down false (run h) ++ [Wait]) in
+  (s.(phase_of) 1, s.(fired), s.(rd), s.(wait_ret)) = (Ret (Some EClosed), [(0, OFail a None)], RDone, Some (Some EClosed)).
+Proof. vm_compute. reflexivity. Qed.
+
+(* the free-running scenario of c10.proc *)
+Example ex_proc_script :
+  let s := run (proc_script [a; b; bs "c"] 2 [1] false) in
+  (s.(phase_of) 0, s.(phase_of) 1, s.(phase_of) 2, s.(fired), s.(wait_ret), is_running s)
+  = (Ret None, Ret None, Ret (Some EClosed), [(1, OResp b (bs "r-b")); (0, OFail a None)], Some (Some EClosed), false).
+Proof. vm_compute. reflexivity. Qed.
